@@ -186,7 +186,8 @@ def process_includes(lualines, filename=None):
             os.path.normpath(
                 os.path.join(
                     os.path.dirname(filename), inc_path + inc_extension)))
-        if not inc_full_path.startswith(root_path):
+        if (inc_full_path != root_path and
+                not inc_full_path.startswith(os.path.join(root_path, ''))):
             raise P8IncludeOutsideOfAllowedDirectory()
         if not os.path.isfile(inc_full_path):
             raise P8IncludeNotFound()
